@@ -225,3 +225,11 @@ Lemma w0x :
   c19_ok sc0 lens0 ops_0x (run0c ops_0x) = true /\
   c19_ok sc0 lens0 ops_0x (drop_delivers (run0 ops_0x)) = false.
 Proof. vm_compute. repeat split; reflexivity. Qed.
+
+Lemma wpad :
+  forallb tok_ok19 toks_pad = true /\ enc_toks toks_pad = raw_pad /\
+  decoded_seq raw_pad = Some 10 /\ raw_seq raw_pad = Some 10 /\
+  s_next_recv s_exp10 = 10 /\ delivers_of (p_evs (proc raw_pad s_exp10)) = [b "D"] /\
+  s_next_recv s_exp8 = 8 /\ delivered (p_evs (proc raw_pad s_exp8)) = false /\
+  resend_from 8 (p_evs (proc raw_pad s_exp8)) = true.
+Proof. vm_compute. repeat split; reflexivity. Qed.
